@@ -223,13 +223,24 @@ class IdealNet(torch.nn.Module):
             if fr.undershoot:
                 # realistic network undershoot: a small negative plateau around every bump (channels of
                 # invisible nodes stay identically zero); the argmax does not move
-                vis = (cm.amax(dim=(-2, -1), keepdim=True) > 0).to(cm.dtype)
-                cm = cm - float(fr.undershoot) * (1.0 - cm) * vis
+                cm = undershoot_maps(cm, float(fr.undershoot), self.sigma)
             out.append(cm)
         cms = torch.cat(out, dim=0)
         self.log.append(entries)
         self.cms_log.append(cms.detach().cpu().numpy().astype(np.float64))
         return cms
+
+
+def undershoot_maps(cm: torch.Tensor, u: float, sigma_cells: float) -> torch.Tensor:
+    """Network-like undershoot: every bump keeps its core (cells within 2 grid cells of the keypoint,
+    values ≥ t = exp(-2/σ²)) and is surrounded by a shallow negative trough that starts at 0 on the
+    core's rim and levels off at -u.  The argmax, the local-peak structure and the peak values do not
+    change; a 5×5 refinement patch contains a few slightly negative cells (sum stays ≫ 0, so the
+    unboundedness of F-C06 is not in play).  Channels of invisible nodes stay identically zero."""
+    t = float(np.exp(-2.0 / (sigma_cells * sigma_cells)))
+    vis = (cm.amax(dim=(-2, -1), keepdim=True) > 0)
+    trough = -u * (1.0 - cm / t)
+    return torch.where(vis & (cm < t), trough, cm)
 
 
 class ModeNet(torch.nn.Module):
@@ -304,9 +315,9 @@ class UndershootNet(torch.nn.Module):
     another stub (e.g. harness/c03.py's bottom-up stub): sample `b` of the batch dips to about
     `-us[b]` away from its bumps."""
 
-    def __init__(self, inner, us, head=None):
+    def __init__(self, inner, us, head=None, sigma=1.5):
         super().__init__()
-        self.inner, self.us, self.head = inner, list(us), head
+        self.inner, self.us, self.head, self.sigma = inner, list(us), head, float(sigma)
 
     def forward(self, x):
         out = self.inner(x)
@@ -314,8 +325,7 @@ class UndershootNet(torch.nn.Module):
         cms = cms.clone()
         for b, u in enumerate(self.us):
             if u:
-                vis = (cms[b].amax(dim=(-2, -1), keepdim=True) > 0).to(cms.dtype)
-                cms[b] = cms[b] - float(u) * (1.0 - cms[b]) * vis
+                cms[b] = undershoot_maps(cms[b], float(u), self.sigma)
         if isinstance(out, dict):
             out = dict(out)
             out[self.head] = cms
